@@ -324,13 +324,33 @@ impl CompressedUsedLeafsIndexes {
         lms_leaf_identifier_set
     }
 
+    /// Returns `false` if the counter is not the index of a leaf of a key with `parameters`.
+    pub fn is_in_range<H: HashChain>(
+        &self,
+        parameters: &ArrayVec<[HssParameter<H>; MAX_ALLOWED_HSS_LEVELS]>,
+    ) -> bool {
+        let total_tree_height: u32 = parameters
+            .iter()
+            .map(|parameter| parameter.get_lms_parameter().get_tree_height() as u32)
+            .sum();
+
+        self.count
+            .checked_shr(total_tree_height)
+            .map_or(true, |excess| excess == 0)
+    }
+
     pub fn increment(
         &mut self,
         tree_heights: &ArrayVec<[u8; MAX_ALLOWED_HSS_LEVELS]>,
     ) -> Result<(), ()> {
-        let total_tree_height: u32 = tree_heights.iter().sum::<u8>().into();
+        let total_tree_height: u32 = tree_heights.iter().map(|height| *height as u32).sum();
 
-        if self.count >= (2u64.pow(total_tree_height) - 1) {
+        // Keys with a total height of 64 or more have more leafs than the counter can address
+        let last_leaf = 1u64
+            .checked_shl(total_tree_height)
+            .map_or(u64::MAX, |leafs| leafs - 1);
+
+        if self.count >= last_leaf {
             return Err(());
         }
 
